@@ -11,6 +11,8 @@ import (
 	"bytes"
 	"fmt"
 	"net"
+	"runtime"
+	"strings"
 	"sync"
 	"testing"
 	"time"
@@ -231,7 +233,21 @@ func c03Oracle(conn *vconn.Conn, returned bool, panicked any, realDur time.Durat
 		return "panic", fmt.Sprintf("handler panicked: %v", panicked), nil
 	}
 	if !returned {
-		return "harness", "handler did not return within the harness limit", nil
+		// on a scripted connection every wait is virtual (or at most the 10 s real-time sleep): a
+		// handler that has not returned after 40 s is stuck (it neither reads nor ever closes)
+		buf := make([]byte, 1<<18)
+		buf = buf[:runtime.Stack(buf, true)]
+		dig := ""
+		for _, g := range strings.Split(string(buf), "\n\n") {
+			if strings.Contains(g, "handleNewTCPConn") {
+				lines := strings.Split(g, "\n")
+				if len(lines) > 9 {
+					lines = lines[:9]
+				}
+				dig = strings.Join(lines, "\n")
+			}
+		}
+		return "handler-stuck", "handler did not return within the limit (12-40 s of real time) although the peer's (virtual) silence lasted past every deadline; it is blocked here:\n" + dig, nil
 	}
 	if len(written) != 0 {
 		return "wrote-bytes", fmt.Sprintf("station wrote %d byte(s) to an unauthenticated peer: %x", len(written), written[:minInt(len(written), 32)]), nil
@@ -434,10 +450,11 @@ func TestVerif_C03_realtime(t *testing.T) {
 	_, shards := vh.Shard()
 	n = (n + shards - 1) / shards
 	type item struct {
-		c   c03Case
-		e   *aEnv
-		key string
-		msg string
+		c     c03Case
+		e     *aEnv
+		key   string
+		msg   string
+		pause time.Duration
 	}
 	var items []*item
 	ge := aNewEnv(t)
@@ -451,7 +468,11 @@ func TestVerif_C03_realtime(t *testing.T) {
 			return
 		}
 		left--
-		items = append(items, &item{c: c})
+		it := &item{c: c}
+		if len(items)%3 == 0 && len(c.Script.Reads) > 0 {
+			it.pause = []time.Duration{1500 * time.Millisecond, 3 * time.Second, 4700 * time.Millisecond}[(len(items)/3)%3]
+		}
+		items = append(items, it)
 	})
 	var wg sync.WaitGroup
 	for _, it := range items {
@@ -473,9 +494,13 @@ func TestVerif_C03_realtime(t *testing.T) {
 				it.e.cm.handleNewTCPConn(it.e.rm, c03PipeConn{Conn: srv, remote: remote}, aPhantom(0, it.c.V6))
 				srv.Close() // what handleNewConn does when the handler returns
 			}()
-			// prober: write the segments, then listen
+			// prober: write the segments (every third case: the last segment arrives late, after a
+			// real pause of 1.5 / 3 / 4.7 s), then listen
 			go func() {
-				for _, st := range it.c.Script.Reads {
+				for si, st := range it.c.Script.Reads {
+					if it.pause > 0 && si == len(it.c.Script.Reads)-1 {
+						time.Sleep(it.pause)
+					}
 					_ = cli.SetWriteDeadline(time.Now().Add(11 * time.Second))
 					if _, err := cli.Write(st.Data); err != nil {
 						return
@@ -519,7 +544,11 @@ func TestVerif_C03_realtime(t *testing.T) {
 	wg.Wait()
 	for _, it := range items {
 		on := it.e.rm.CountRegistrations(aPhantom(0, it.c.V6))
-		rec.Case(on > 0 && it.c.Total >= 32, vh.Digest(it.c), it.c, "kind:"+it.c.Kind)
+		cl := []string{"kind:" + it.c.Kind}
+		if it.pause > 0 {
+			cl = append(cl, "late-segment")
+		}
+		rec.Case(on > 0 && it.c.Total >= 32, vh.Digest(it.c), it.c, cl...)
 		if it.key == "harness" {
 			t.Fatalf("harness problem: %s", it.msg)
 		}
@@ -527,4 +556,159 @@ func TestVerif_C03_realtime(t *testing.T) {
 			rec.Violation(t, it.key, it.c, "%s (real-time tier, probe kind %s, %d bytes)", it.msg, it.c.Kind, it.c.Total)
 		}
 	}
+}
+
+
+// Sequences of connections on ONE connection manager: earlier connections (peers that close or reset
+// at various points, silent peers) and statistics epoch resets - also in the middle of a connection -
+// must not change how a later unauthenticated connection is treated.
+type c03SeqConn struct {
+	Kind   string `json:"kind"` // probe | eof-at-once | data-eof | data-reset | silent
+	V6     bool   `json:"v6"`
+	Reset  string `json:"reset"` // "" | before | during | after : statistics PrintAndReset relative to this connection
+	Len    int    `json:"len"`
+	ASN    int    `json:"asn"`
+	NoRegs bool   `json:"noregs"` // probe a phantom without registrations
+}
+
+type c03SeqCase struct {
+	Conns []c03SeqConn `json:"conns"`
+}
+
+type c03Geo struct{ asn *uint }
+
+func (g c03Geo) CC(net.IP) (string, error) { return "US", nil }
+func (g c03Geo) ASN(net.IP) (uint, error)  { return *g.asn, nil }
+
+func c03SeqRun(e *aEnv, c c03SeqCase) (key, msg string, classes []string) {
+	cj.VerifResetRegistry(e.rm)
+	e.cm = newConnManager(nil)
+	asn := uint(64512)
+	e.rm.GeoIP = c03Geo{asn: &asn}
+	for _, v6 := range []bool{false, true} {
+		for tt := 0; tt < 3; tt++ {
+			reg, err := e.aMakeReg(aRegSpec{Secret: tt, TT: tt, PrefixID: 1, Phantom: 0, V6: v6})
+			if err != nil {
+				return "harness", err.Error(), nil
+			}
+			e.rm.AddRegistration(reg)
+		}
+	}
+	for i, sc := range c.Conns {
+		asn = uint(64512 + sc.ASN)
+		var s vconn.Script
+		s.Remote = "203.0.113.77:5555"
+		if sc.V6 {
+			s.Remote = "[2001:db8::77]:5555"
+		}
+		data := aPayload(i*7+sc.Len, sc.Len, "c03seq")
+		first := vconn.Step{Data: vh.Hex(data)}
+		if sc.Reset == "during" {
+			first.Hook = "reset"
+		}
+		switch sc.Kind {
+		case "probe", "silent":
+			s.End = "hold"
+			if sc.Kind == "silent" {
+				first.Data = nil
+			}
+			s.Reads = []vconn.Step{first}
+		case "eof-at-once":
+			first.Data = nil
+			first.Err = "eof"
+			s.Reads = []vconn.Step{first}
+			s.End = "eof"
+		case "data-eof":
+			s.Reads = []vconn.Step{first, {Err: "eof"}}
+			s.End = "eof"
+		case "data-reset":
+			s.Reads = []vconn.Step{first, {Err: "reset"}}
+			s.End = "reset"
+		}
+		if sc.Reset == "before" {
+			e.cm.PrintAndReset(e.rm.Logger)
+		}
+		conn := vconn.New(s)
+		conn.OnHook = func(string) { e.cm.PrintAndReset(e.rm.Logger) }
+		ph := aPhantom(0, sc.V6)
+		if sc.NoRegs {
+			ph = aPhantom(7, sc.V6)
+		}
+		ok, pan, dur := e.aRunHandler(conn, ph, 12*time.Second) // no real-time wait exists on these paths
+		classes = append(classes, "conn:"+sc.Kind)
+		if sc.Reset != "" {
+			classes = append(classes, "stats-reset:"+sc.Reset)
+		}
+		if sc.Kind == "probe" || sc.Kind == "silent" {
+			k, m, _ := c03Oracle(conn, ok, pan, dur)
+			if k != "" {
+				return k, fmt.Sprintf("connection %d of the sequence (%s): %s", i, sc.Kind, m), classes
+			}
+		} else {
+			if pan != nil {
+				return "panic", fmt.Sprintf("connection %d (%s): handler panicked: %v", i, sc.Kind, pan), classes
+			}
+			if !ok {
+				k, m, _ := c03Oracle(conn, ok, pan, dur)
+				return k, fmt.Sprintf("connection %d of the sequence (%s): %s", i, sc.Kind, m), classes
+			}
+			if _, w, _, _ := conn.Snapshot(); len(w) != 0 {
+				return "wrote-bytes", fmt.Sprintf("connection %d (%s): station wrote %d bytes to an unauthenticated peer", i, sc.Kind, len(w)), classes
+			}
+		}
+		if sc.Reset == "after" {
+			e.cm.PrintAndReset(e.rm.Logger)
+		}
+	}
+	return "", "", classes
+}
+
+func TestVerif_C03_sequence(t *testing.T) {
+	rec := vh.NewRec("C03", "sequence", "rapid-generated sequences of 2-6 connections on one connection manager: peers that close at once / after data / reset / stay silent, probes, IPv4 and IPv6, two source ASNs, phantoms with and without registrations, statistics epoch resets before / during / after a connection; every connection is judged (probes and silent peers by the C03 oracle, closing peers by 'returns, writes nothing'); non-trivial = a sequence with a statistics reset and a later probe; distinct by case")
+	defer rec.Flush()
+	rec.Require("stats-reset:during", "conn:eof-at-once", "conn:probe")
+	defer aSilenceStdout()()
+	e := aNewEnv(t)
+	run := func(tt vh.Fataler, c c03SeqCase) {
+		key, msg, classes := c03SeqRun(e, c)
+		nontriv := false
+		seenReset := false
+		for _, sc := range c.Conns {
+			if sc.Reset != "" {
+				seenReset = true
+			} else if seenReset && (sc.Kind == "probe" || sc.Kind == "silent") {
+				nontriv = true
+			}
+		}
+		rec.Case(nontriv, vh.Digest(c), c, classes...)
+		if key == "harness" {
+			tt.Fatalf("harness problem: %s", msg)
+		}
+		if key != "" {
+			rec.Violation(tt, key, c, "%s", msg)
+		}
+	}
+	if p := vh.ReplayFile(); p != "" {
+		var c c03SeqCase
+		if _, _, err := vh.LoadReplay(p, &c); err != nil {
+			t.Fatal(err)
+		}
+		run(t, c)
+		return
+	}
+	rapid.Check(t, func(rt *rapid.T) {
+		n := rapid.IntRange(2, 6).Draw(rt, "n")
+		var c c03SeqCase
+		for i := 0; i < n; i++ {
+			c.Conns = append(c.Conns, c03SeqConn{
+				Kind:   rapid.SampledFrom([]string{"probe", "eof-at-once", "eof-at-once", "data-eof", "data-reset", "silent"}).Draw(rt, "kind"),
+				V6:     rapid.IntRange(0, 2).Draw(rt, "v6") == 0,
+				Reset:  rapid.SampledFrom([]string{"", "", "before", "during", "during", "after"}).Draw(rt, "reset"),
+				Len:    rapid.SampledFrom([]int{1, 31, 32, 64, 100, 5000}).Draw(rt, "len"),
+				ASN:    rapid.IntRange(0, 1).Draw(rt, "asn"),
+				NoRegs: rapid.IntRange(0, 3).Draw(rt, "noregs") == 0,
+			})
+		}
+		run(rt, c)
+	})
 }
